@@ -65,7 +65,6 @@ func funcDecl(p *packages.Package, recv, name string) *ast.FuncDecl {
 	return nil
 }
 
-
 // declOfFunc: the declaration (with body) of a function or method of this package, by its types object
 func declOfFunc(p *packages.Package, obj types.Object) *ast.FuncDecl {
 	if obj == nil || obj.Pkg() == nil || obj.Pkg() != p.Types {
@@ -1011,6 +1010,58 @@ func pushSuccessCodes(p *packages.Package) []int64 {
 		}
 		return true
 	})
+	if codes == nil {
+		// no such switch: a lookup table (set / slice literal of HTTP status constants) that Send or a helper
+		// it calls refers to
+		inspectInline(p, fd.Body, func(n ast.Node) bool {
+			id, ok := n.(*ast.Ident)
+			if !ok || codes != nil {
+				return true
+			}
+			v, ok := p.TypesInfo.Uses[id].(*types.Var)
+			if !ok || v.Parent() != p.Types.Scope() {
+				return true
+			}
+			for _, f := range p.Syntax {
+				for _, d := range f.Decls {
+					gd, ok := d.(*ast.GenDecl)
+					if !ok {
+						continue
+					}
+					for _, sp := range gd.Specs {
+						vs, ok := sp.(*ast.ValueSpec)
+						if !ok {
+							continue
+						}
+						for i, nm := range vs.Names {
+							if p.TypesInfo.Defs[nm] != v || i >= len(vs.Values) {
+								continue
+							}
+							cl, ok := vs.Values[i].(*ast.CompositeLit)
+							if !ok || len(cl.Elts) < 2 {
+								continue
+							}
+							var cs []int64
+							for _, e := range cl.Elts {
+								if kv, ok := e.(*ast.KeyValueExpr); ok {
+									e = kv.Key
+								}
+								if tv, ok := p.TypesInfo.Types[e]; ok && tv.Value != nil {
+									if c, ok := constant.Int64Val(constant.ToInt(tv.Value)); ok && c >= 100 && c <= 599 {
+										cs = append(cs, c)
+									}
+								}
+							}
+							if len(cs) == len(cl.Elts) {
+								codes = cs
+							}
+						}
+					}
+				}
+			}
+			return true
+		})
+	}
 	sort.Slice(codes, func(i, j int) bool { return codes[i] < codes[j] })
 	if len(codes) == 0 {
 		problem("push success status codes not found")
@@ -1040,7 +1091,10 @@ func windowConsts(p *packages.Package, fd *ast.FuncDecl) []int64 {
 		}
 		if e != nil {
 			if tv, ok := p.TypesInfo.Types[e]; ok && tv.Value != nil && tv.Value.Kind() == constant.Int {
-				if c, ok := constant.Int64Val(tv.Value); ok {
+				if c, ok := constant.Int64Val(tv.Value); ok && c != 0 {
+					if c < 0 { // a step written as a signed constant (-1, -10) counts by its magnitude
+						c = -c
+					}
 					seen[c] = true
 				}
 			}
@@ -1666,12 +1720,6 @@ func main() {
 		cs[i] = fmt.Sprint(c)
 	}
 	fmt.Fprintf(&out, "\n/-- HTTP status codes the push streamer treats as success -/\ndef pushSuccessCodes : List Nat := [%s]\n", strings.Join(cs, ", "))
-	lits := intLits(act, funcDecl(act, "httpPushStreamConn", "Receive"))
-	ls := make([]string, len(lits))
-	for i, c := range lits {
-		ls[i] = fmt.Sprint(c)
-	}
-	fmt.Fprintf(&out, "/-- integer literals of httpPushStreamConn.Receive in source order (window arithmetic) -/\ndef pushReceiveLits : List Int := [%s]\n", strings.Join(ls, ", "))
 	{
 		var ws []string
 		for _, c := range windowConsts(act, funcDecl(act, "httpPushStreamConn", "Receive")) {
